@@ -57,6 +57,17 @@ tx min_utxo_first(quantity: Int) {
     output first { to: Receiver, amount: min_utxo(first), }
     output { to: Sender, amount: source - min_utxo(first) - fees, }
 }
+tx big_min_utxo_first(quantity: Int) {
+    input source { from: Sender, min_amount: Ada(quantity) + fees, }
+    output first { to: Receiver, amount: min_utxo(first) + AnyAsset(0x6b9c456aa650cb808a9ab54326e039d5235ed69f069c9664a8fe5b69, "A_LONG_ASSET_NAME_0123456789", 1), datum: Stamp { current_slot: 123456789012345678, expiry_slot: 123456789012345678, }, }
+    output { to: Sender, amount: source - min_utxo(first) - fees, }
+}
+tx big_second(quantity: Int) {
+    input source { from: Sender, min_amount: Ada(quantity) + fees, }
+    output first { to: Receiver, amount: Ada(quantity), }
+    output second { to: Receiver, amount: min_utxo(second), datum: Stamp { current_slot: 123456789012345678, expiry_slot: 123456789012345678, }, }
+    output { to: Sender, amount: source - Ada(quantity) - min_utxo(second) - fees, }
+}
 tx kitchen_sink(quantity: Int) {
     input source { from: Sender, min_amount: Ada(2000000) + fees, }
     collateral { from: Sender, min_amount: fees, }
@@ -138,19 +149,19 @@ fn play(c: &mut Compiler, s: Step) {
 }
 
 fn show(r: &Result<tx3_tir::compile::CompiledTx, Error>) -> String {
-    match r { Ok(x) => format!("Ok(fee {})", x.fee), Err(e) => format!("Err({e})") }
+    match r { Ok(x) => format!("Ok(fee {}, hash {}.., {} bytes)", x.fee, hex::encode(&x.hash[..4.min(x.hash.len())]), x.payload.len()), Err(e) => format!("Err({e})") }
 }
 
 fn main() {
     vf_pipeline::start_watchdog(45);
-    // BOUND: histories of length 0..=2 over 11 kinds of earlier use, 11 target templates (two with redeemers and Plutus
+    // BOUND: histories of length 0..=2 over 13 kinds of earlier use (two of them size a LARGER output at the index a later template sizes), 11 target templates (two with redeemers and Plutus
     // witnesses of different versions; a "kitchen sink" carrying every optional section - collateral, reference input,
     // witnessed script, metadata, validity, signers - as an earlier use, and bare mint / burn templates under the policy of
     // that witnessed script which carry none of those sections), one parameter setting, a store of two UTxOs.
     let steps = [
         Step::Resolve("one_output"), Step::Resolve("two_outputs"), Step::Resolve("uses_min_utxo"), Step::Resolve("min_utxo_first"),
         Step::ResolveFailing("two_outputs"), Step::Compile("one_output"), Step::Compile("two_outputs"),
-        Step::Resolve("mint_v3"), Step::Resolve("mint_v2"), Step::Resolve("delayed"), Step::Resolve("kitchen_sink"),
+        Step::Resolve("mint_v3"), Step::Resolve("mint_v2"), Step::Resolve("delayed"), Step::Resolve("kitchen_sink"), Step::Resolve("big_min_utxo_first"), Step::Resolve("big_second"),
     ];
     let mut histories: Vec<Vec<Step>> = vec![vec![]];
     for a in steps { histories.push(vec![a]); }
